@@ -51,9 +51,19 @@ def matrix(seed, tier):
     return out
 
 
-def base_world(seed, scn):
-    return {"seed": seed, "scenario": scn, "monitors": [scn["sampler"], "res"], "plan": [],
-            "max_incarnations": 3, "budget_steps": 20_000_000}
+OPCODE_FUNCS = ["NestedSampler.consume_sample", "NestedSampler.insert_live_point", "NestedSampler.finalise",
+                "BaseNestedSampler._critical_section", "_NSIntegralState.increment", "NestedSampler.yield_sample",
+                "FlowSampler.safe_exit"]
+
+
+def base_world(seed, scn, opcodes=False):
+    w = {"seed": seed, "scenario": scn, "monitors": [scn["sampler"], "res"], "plan": [],
+         "max_incarnations": 3, "budget_steps": 20_000_000}
+    if opcodes and scn["sampler"] == "ns":
+        # thorough deepening: pre-emption at every bytecode of the replace step (older interpreters deliver
+        # signals on almost every instruction)
+        w["opcode_funcs"] = OPCODE_FUNCS
+    return w
 
 
 def record_job(job):
@@ -256,7 +266,7 @@ def body(r):
         r.absorb(res)
         return r.finish("replay of one recorded signal site")
     mx = matrix(seed, tier)
-    rec_jobs = [{"name": n, "world": base_world(seed, scn)} for n, scn in mx]
+    rec_jobs = [{"name": n, "world": base_world(seed, scn, opcodes=(tier == "thorough" and n == "ns"))} for n, scn in mx]
     recs = r.map(record_job, rec_jobs, "record")
     rr = R.stream(seed, "c13-sites")
     sjobs = []
@@ -293,6 +303,20 @@ def body(r):
             w["plan"] = [{"inc": 0, "kind": "signal", "signum": SIGS[sname], "line_event": ev}]
             w["note_resume_sha"] = True
             sjobs.append({"name": rec["name"], "cls": cls, "world": w})
+    n_ops = 0
+    for rec, rj in zip(recs, rec_jobs):
+        ops = rec["trace"].get("ops") or []
+        if not ops:
+            continue
+        its = sorted({o[4] for o in ops if o[4] >= 0})
+        want = set(its[:1] + its[len(its) // 2: len(its) // 2 + 1] + its[-1:])
+        for o in ops:
+            if o[4] in want:
+                w = dict(rj["world"])
+                w["plan"] = [{"inc": 0, "kind": "signal", "signum": 15, "opcode_event": o[0]}]
+                w["note_resume_sha"] = True
+                sjobs.append({"name": rec["name"], "cls": f"opcode:{o[1]}", "world": w})
+                n_ops += 1
     st = sjobs[:2]
     a = r.map(signal_job, st, "selftest-a")
     b = r.map(signal_job, st, "selftest-b")
@@ -312,7 +336,8 @@ def body(r):
               "process must resume to a result passing NS-*/INS-* and RES-*; INS: the last iteration-boundary "
               "checkpoint must stay byte-identical. distinct = (scenario, qualname | source text, phase); all "
               "non-trivial (signal lands inside run())."),
-        extra={"scenarios": [n for n, _ in mx], "sites_injected": len(sjobs), "line_events_recorded": total_events},
+        extra={"scenarios": [n for n, _ in mx], "sites_injected": len(sjobs), "line_events_recorded": total_events,
+               "opcode_sites_injected": n_ops},
         exhaustive=False,
         assumptions=["line events are a superset of CPython 3.12's signal delivery points",
                      "one signal per run; handler not re-entered by a second signal"],
